@@ -428,4 +428,179 @@ theorem accepted_nodup_aux (cfg : Cfg) (evs : List Ev) : ∀ (r : Recip) (A : Li
       simp only [accepted, final, hacc, if_false, List.nil_append]
       exact ⟨nd, dis, gf⟩
 
+theorem vvalidate_live {cfg : Cfg} {v : View} {A : List Nat} {p : Nat} (g : Good v A) (hp : p < SEQ_MAX)
+    (hn : p ∉ A) (hw : ∀ q ∈ A, q < p + min cfg.window 64) : ∃ v', vvalidate cfg v p = some v' := by
+  unfold vvalidate
+  have h1 : ¬ p ≥ SEQ_MAX := by omega
+  rw [if_neg h1]
+  by_cases h2 : v.init = true
+  · rw [if_pos h2]; exact ⟨_, rfl⟩
+  rw [if_neg h2]
+  have hi : v.init = false := by simpa using h2
+  by_cases h3 : p > v.last
+  · rw [if_pos h3]; exact ⟨_, rfl⟩
+  rw [if_neg h3]
+  have htop := g.top hi
+  have hlt := hw _ htop
+  have h4 : ¬ p = v.last := fun h => hn (h ▸ htop)
+  rw [if_neg h4]
+  have h5 : ¬ (v.last - p > cfg.window ∨ v.last - p > 63) := by omega
+  rw [if_neg h5]
+  have h6 : ¬ v.win.testBit (v.last - p) = true := by
+    intro hb
+    have := (g.conv hi (v.last - p) (by omega) hb).2
+    have e : v.last - (v.last - p) = p := by omega
+    rw [e] at this
+    exact hn this
+  rw [if_neg h6]; exact ⟨_, rfl⟩
+
+theorem vrecv_acc {cfg : Cfg} {v v' : View} {ev : Ev} (ha : ev.authentic = true)
+    (hv : vvalidate cfg v ev.piv = some v') (hs : (!v.init || !cfg.b12) = true ∨ ev.echo = .good) :
+    (vrecv cfg v ev).2 = .acc := by
+  unfold vrecv
+  by_cases hval : (!v.init || !cfg.b12) = true
+  · rw [if_pos hval, hv]; simp [ha]
+  · rw [if_neg hval]
+    rcases hs with hs | hs
+    · exact absurd hs hval
+    · simp [ha, hs, hv]
+
+
+/-! ### Sender side -/
+
+theorem effFreq_pos (f : Nat) : 0 < effFreq f := by
+  unfold effFreq; split <;> omega
+
+theorem effFreq_lt (f : Nat) : effFreq f < 2 ^ 32 := by
+  unfold effFreq; split <;> omega
+
+theorem restart_eff (f start : Nat) : restart f start = { seq := start, next := start - start % effFreq f } := by
+  unfold restart effFreq
+  by_cases h : f % 2 ^ 32 = 0
+  · simp [h]
+  · have : f % 2 ^ 32 > 0 := by omega
+    simp [h, this]
+
+/-- Invariant of the sending process and its persistent store after `n` operations: every PIV used so far (`U`) is
+below both the current sequence number and the stored value; while sequence numbers are not exhausted the sequence
+number has not passed the stored value and the watermark is within one period of it. -/
+structure SGood (y : SSys) (U : List Nat) (n : Nat) : Prop where
+  used_seq : ∀ p ∈ U, p < y.s.seq
+  used_st : ∀ p ∈ U, p < y.stored
+  alive : y.s.seq + 1 < SEQ_MAX → y.s.seq ≤ y.stored ∧ y.s.next ≤ y.stored ∧ y.s.seq < y.s.next + effFreq y.f
+  st_le : y.stored ≤ SEQ_MAX + 2 ^ 32
+  seq_le : y.s.seq ≤ SEQ_MAX + 2 ^ 32 + n
+
+def emitted : SObs → List Nat
+  | .sent o => (match o.piv with | some p => [p] | none => [])
+  | .resumed _ => []
+
+theorem pivs_cons (o : SObs) (r : List SObs) : pivs (o :: r) = emitted o ++ pivs r := by
+  cases o <;> rfl
+
+theorem sgood_start (f start : Nat) (h : start ≤ SEQ_MAX + 2 ^ 32) : SGood (SSys.start f start) [] 0 := by
+  unfold SSys.start
+  rw [restart_eff]
+  refine ⟨by simp, by simp, ?_, h, by simpa using h⟩
+  intro _
+  dsimp only
+  have := Nat.mod_lt start (effFreq_pos f)
+  omega
+
+theorem sstep_good {y : SSys} {U : List Nat} {n : Nat} (g : SGood y U n) (hn : n < 2 ^ 63) (op : SOp) :
+    SGood (sstep y op).1 (emitted (sstep y op).2 ++ U) (n + 1) ∧
+      ∀ p ∈ emitted (sstep y op).2, ∀ u ∈ U, u < p := by
+  have hsm : SEQ_MAX = 1099511627775 := rfl
+  cases op with
+  | crash f' =>
+    simp only [sstep, emitted, List.nil_append]
+    rw [restart_eff]
+    refine ⟨⟨?_, g.used_st, ?_, g.st_le, ?_⟩, by simp⟩
+    · exact g.used_st
+    · intro _
+      dsimp only
+      have := Nat.mod_lt y.stored (effFreq_pos f')
+      omega
+    · dsimp only; have := g.st_le; omega
+  | protect =>
+    have hseq := g.seq_le
+    have hwrap : (y.s.seq + 1) % 2 ^ 64 = y.s.seq + 1 := Nat.mod_eq_of_lt (by omega)
+    simp only [sstep, protect, hwrap]
+    by_cases h1 : y.s.seq + 1 ≥ SEQ_MAX
+    · simp only [h1, if_true, emitted, List.nil_append]
+      refine ⟨⟨?_, g.used_st, ?_, g.st_le, ?_⟩, by simp⟩
+      · intro p hp; have := g.used_seq p hp; dsimp only; omega
+      · intro h; dsimp only at h; omega
+      · dsimp only; omega
+    · simp only [h1, if_false]
+      have hal := g.alive (by omega)
+      have hf := effFreq_lt y.f
+      have hfp := effFreq_pos y.f
+      have hst := g.st_le
+      by_cases h2 : y.s.seq + 1 > y.s.next
+      · have hnw : (y.s.next + effFreq y.f) % 2 ^ 64 = y.s.next + effFreq y.f := Nat.mod_eq_of_lt (by omega)
+        simp only [h2, if_true, emitted, hnw, List.singleton_append]
+        refine ⟨⟨?_, ?_, ?_, ?_, ?_⟩, ?_⟩
+        · intro p hp
+          dsimp only
+          rcases List.mem_cons.mp hp with rfl | hp
+          · omega
+          · have := g.used_seq p hp; omega
+        · intro p hp
+          dsimp only
+          rcases List.mem_cons.mp hp with rfl | hp
+          · omega
+          · have := g.used_seq p hp; omega
+        · intro _; dsimp only; omega
+        · dsimp only; omega
+        · dsimp only; omega
+        · intro p hp u hu
+          have : p = y.s.seq := by simpa using hp
+          subst this
+          exact g.used_seq u hu
+      · simp only [h2, if_false, emitted, List.singleton_append]
+        refine ⟨⟨?_, ?_, ?_, ?_, ?_⟩, ?_⟩
+        · intro p hp
+          dsimp only
+          rcases List.mem_cons.mp hp with rfl | hp
+          · omega
+          · have := g.used_seq p hp; omega
+        · intro p hp
+          dsimp only
+          rcases List.mem_cons.mp hp with rfl | hp
+          · omega
+          · exact g.used_st p hp
+        · intro _; dsimp only; omega
+        · exact hst
+        · dsimp only; omega
+        · intro p hp u hu
+          have : p = y.s.seq := by simpa using hp
+          subst this
+          exact g.used_seq u hu
+
+theorem srun_increasing (ops : List SOp) : ∀ (y : SSys) (U : List Nat) (n : Nat), SGood y U n →
+    n + ops.length < 2 ^ 63 →
+    (∀ p ∈ pivs (srun y ops), ∀ u ∈ U, u < p) ∧ (pivs (srun y ops)).Pairwise (· < ·) := by
+  induction ops with
+  | nil => intro _ _ _ _ _; simp [srun, pivs]
+  | cons op ops ih =>
+    intro y U n g hn
+    simp only [List.length_cons] at hn
+    obtain ⟨g', hnew⟩ := sstep_good g (by omega) op
+    obtain ⟨hfut, hpw⟩ := ih _ _ _ g' (by omega)
+    simp only [srun, pivs_cons]
+    refine ⟨?_, ?_⟩
+    · intro p hp u hu
+      rcases List.mem_append.mp hp with hp | hp
+      · exact hnew p hp u hu
+      · exact hfut p hp u (List.mem_append_right _ hu)
+    · rw [List.pairwise_append]
+      refine ⟨?_, hpw, ?_⟩
+      · cases hso : (sstep y op).2 with
+        | resumed _ => simp [emitted]
+        | sent o => cases hp : o.piv <;> simp [emitted, hp]
+      · intro a ha b hb
+        exact hfut b hb a (List.mem_append_left _ ha)
+
+
 end Coap.Replay
